@@ -5,7 +5,7 @@ from props._lab import Lab, SymEnv, do_op, base_tree, show, strip_conflicted, re
 PROP = "C01"
 LEVEL = "other"
 SELFTEST_PARTS = ("num",)
-WALL_BUDGET = {"quick": 900, "thorough": 7200}
+WALL_BUDGET = {"quick": 1200, "thorough": 9000}
 OPS = ["create_a", "create_b", "write_a", "delete_a", "rename_a_b", "mkdir_d", "rmdir_d", "move_a_d", "rendir_d_e",
        "mkdir_d_s", "create_d_a"]
 OPS_EXT = OPS + ["mkdir_a", "rmdir_a", "rename_a_c"]          # a folder taking a file's name; a second rename target
@@ -39,6 +39,13 @@ def _factory(params, env=None):
             if d[0] not in ("noop", "failed"):
                 real += 1
             for j in range(params["slots"]):
+                if params.get("slotmode") == "round":       # coarser schedule: nothing, or one fair round
+                    s = e.choose("round", 2)
+                    hist.append("r%d" % s)
+                    if s:
+                        for o in (0, 1, 2):
+                            lab.step(o)
+                    continue
                 s = e.choose("slot", 4)
                 hist.append("s%d" % s)
                 if s < 3:
@@ -101,10 +108,19 @@ def jobs(tier):
         # deeper schedules (2 slots) on the conflict shapes where the known findings live
         focus = [(f, 1, 2, 2, [s, "create_b"]) for f in ("oid", "path") for s in (0, 1)]
     else:
-        combos = [(f, b, 2, 2) for f in ("oid", "path", "mixed") for b in (0, 1, 2)] + \
+        combos = []
+    if tier != "quick":
+        combos = [(f, b, 2, 2) for f in ("oid", "path") for b in (1, 2)] + [("mixed", 2, 2, 2)] + \
+                 [(f, b, 2, 1) for f in ("oid", "path", "mixed") for b in (0,)] + \
                  [(f, b, 2, 1) for f in ("oid-ci", "oid-filt") for b in (1, 2)] + \
-                 [(f, b, 3, 1) for f in ("oid", "path") for b in (2,)]
+                 [(f, b, 3, "round") for f in ("oid", "path") for b in (2,)]
     for f, b, n, s in combos:
+        if s == "round":
+            for side in (0, 1):
+                for op in OPS:
+                    out.append({"harness": "hist", "params": {"flavour": f, "base": b, "nops": n, "slots": 1, "slotmode": "round", "first": [side, op]},
+                                "label": "%s/base%d/%dops/1round/first=%d:%s" % (f, b, n, side, op), "min_leaves": 1})
+            continue
         # split by the first operation so that the path tree starts 22-wide (work distribution)
         for side in (0, 1):
             for op in OPS:
@@ -113,7 +129,7 @@ def jobs(tier):
     for f, b, n, s, first in focus:
         out.append({"harness": "hist", "params": {"flavour": f, "base": b, "nops": n, "slots": s, "first": first},
                     "label": "%s/base%d/%dops/%dslots/first=%d:%s" % (f, b, n, s, first[0], first[1])})
-    if tier == "quick":
+    if True:
         # three-operation shapes of the recorded findings F13 / F18 (two operations fixed, the third free)
         for f in ("oid", "path"):
             for pre in ([[0, "rename_a_b"], [0, "create_a"]], [[1, "rename_a_b"], [1, "create_a"]], [[0, "rendir_d_e"], [1, "rmdir_d"]], [[1, "rendir_d_e"], [0, "rmdir_d"]],
